@@ -1173,9 +1173,51 @@ def _ceil_div(a, b):
     return -(-a // b)
 
 
+def _copy_ranges(R, r):
+    import re
+    out = {}
+    for c in calls_of(R, r):
+        if c['op'] == 'upload_part_copy':
+            m = re.match(r'^bytes=(\d+)-(\d+)$',
+                         str(c['kwargs'].get('CopySourceRange')))
+            pn = c['kwargs'].get('PartNumber')
+            if pn not in out:
+                out[pn] = (int(m.group(1)), int(m.group(2))) if m else None
+    return out
+
+
 def oracle_c14(R):
     import re
     v = []
+    for r in R.all_recs():
+        # CopySourceRange headers are judged on the requests as issued,
+        # whether or not the service accepted them
+        if r['type'] != 'copy' or delivered_for(R, r) or \
+                cancel_sources(R, r):
+            continue
+        rr = _copy_ranges(R, r)
+        if not rr:
+            continue
+        size = len(r['expect'])
+        nums = sorted(rr)
+        bad = None
+        if nums != list(range(1, len(nums) + 1)):
+            bad = f'part numbers {nums}'
+        nxt = 0
+        for n in nums:
+            if bad:
+                break
+            if rr[n] is None:
+                bad = f'part {n}: malformed CopySourceRange'
+            elif rr[n][0] != nxt or rr[n][1] < rr[n][0]:
+                bad = f'part {n}: range {rr[n]} expected to start at {nxt}'
+            else:
+                nxt = rr[n][1] + 1
+        if not bad and nxt != size:
+            bad = f'ranges end at byte {nxt - 1}, object has {size} bytes'
+        if bad:
+            v.append((f'c14:copy:-:copy-ranges',
+                      f'copy {r["i"]} size {size}: {bad} ({rr})'))
     cfg = cfg_of(R)
     thr = cfg['multipart_threshold']
     chunk = cfg['multipart_chunksize']
@@ -1269,26 +1311,6 @@ def oracle_c14(R):
                 v.append((f'c14:{kind}:chunk-changed-needlessly',
                           f'configured chunk {chunk} satisfies the limits '
                           f'but parts are {eff} bytes'))
-            if r['type'] == 'copy':
-                nxt = 0
-                for n in nums:
-                    c = next((c for c in u.log if c['op'] ==
-                              'upload_part_copy' and c['applied'] and
-                              c['kwargs'].get('PartNumber') == n), None)
-                    if c is None or 'range' not in c:
-                        continue
-                    a, b = c['range']
-                    if a != nxt:
-                        v.append((f'c14:{kind}:copy-ranges',
-                                  f'part {n} CopySourceRange {a}-{b}, '
-                                  f'expected start {nxt}'))
-                        break
-                    nxt = b + 1
-                else:
-                    if nxt != size:
-                        v.append((f'c14:{kind}:copy-ranges',
-                                  f'CopySourceRanges end at {nxt}, size '
-                                  f'{size}'))
     return v
 
 
